@@ -10,7 +10,8 @@ EXTENDS Reply
 CONSTANT Progs       \* sequence of reply programs
 
 Recvs == {"submsg", "submsg_gas", "wasm", "cosmos_bank", "cosmos_wasm"}
-DataClasses == {"absent", "good", "good_inst", "empty_env", "bad_env", "bad_json", "bare_json"}
+LongBadJson == {"bad_json_u0", "bad_json_u1", "bad_json_u2", "bad_json_u3"}       \* undecodable JSON that makes for a long error text
+DataClasses == {"absent", "good", "good_inst", "empty_env", "bad_env", "bad_json", "bare_json"} \cup LongBadJson
 
 VARIABLES pi,      \* program (index into Progs)
           st,      \* "idle" | "built" | "replied" | "dispatched"
